@@ -1,4 +1,6 @@
 import CelmaVerif.Lemmas.Int2StrGen
+import CelmaVerif.Lemmas.Int2StrLiteral
+import CelmaVerif.Lemmas.Int2StrGroup
 import Std.Data.String.ToInt
 /-
   C13 — integer-to-string conversions are exact for every integer.
@@ -6,6 +8,13 @@ import Std.Data.String.ToInt
   translate/int2str.py regenerates from the C++ sources on every run
   (Generated/Int2Str.lean), executed by the interpreter of Model/Int2Str.lean; the hypotheses of
   the generic lemmas are the `decide`d obligations of Generated/Int2StrOk.lean.
+  Who computes what: the translator (Python, trusted, cross-validated by the correspondence run)
+  parses the C++, executes the control flow of `convert()` per digit count (which `case` runs, the
+  fall-through, the `++num_digits == 4` counter) and writes the resulting statement traces; the
+  kernel checks by `decide` that these traces, the decision trees and the caller expressions have
+  the required form, and the generic lemmas do the rest for all values.  `C13_switch_as_written`
+  closes the gap for the switch: a second, literal reading of `convert()` (statements as written,
+  counter included) is executed by the Lean interpreter and proved to give the same results.
   `Lib.str grouped n signed g v` is `int2string( v)` / `grouped_int2string( v, g)` for the integral
   type with `n` bits and that signedness, `Lib.buf … buf` the overload writing into `buf`.
   Specification: core Lean's `toString` on `Nat`/`Int` (`Nat.repr`, i.e. `Nat.toDigits 10`).
@@ -50,9 +59,12 @@ theorem C13_grouped_signed (n : Nat) (hn : Width n) (v : Int) (hlo : -(2 ^ (n - 
     (by rw [two_eq_pow]; exact hlo) (by rw [two_eq_pow]; exact hhi)]
   simp [specText, body, digitBytes, bytesOf]
 
-/-- What "grouped" means, independent of the code: `groupRight g l` has `(|l|−1)/3` extra elements,
-    starts with the first element of `l` (so no group character follows a sign directly) and ends with
-    its last three elements unchanged when there are that many. -/
+/-- Two consequences of what "grouped" means (`C13_group_positions` is the full, positional
+    characterisation): `groupRight g l` has `(|l|−1)/3` extra elements and starts with the first
+    element of `l`.  With `C13_grouped_signed` (the sign is prepended to `groupRight g digits`, and
+    the digit string is never empty) the character after a minus sign is therefore the leading digit,
+    not an inserted group character.  When the caller chooses `g` = '-' or a digit the text is still
+    exactly this one, but "adjacent to the sign" no longer distinguishes anything. -/
 theorem C13_group_shape (g : Byte) (l : List Byte) :
     (groupRight g l).length = l.length + (l.length - 1) / 3 ∧ (groupRight g l).head? = l.head? := by
   have key : ∀ m : List Byte, (groupRev g m).length = m.length + (m.length - 1) / 3 ∧
@@ -82,6 +94,25 @@ theorem C13_group_shape (g : Byte) (l : List Byte) :
   · simpa using this.1
   · rw [List.head?_reverse, this.2, List.getLast?_reverse]
 
+/-- **What "grouped" means, position by position, independent of the code.**  Count the characters of
+    `groupRight g l` from the right, index 0 being the last one.  Every index `i` with `i % 4 = 3`
+    that lies inside the text (`i < |l| + (|l|−1)/3`) holds the group character; every other index
+    `i` holds element `i − i/4` of `l` counted from the right — i.e. the digits in their order with
+    exactly one group character between every three of them, counted from the right, and none in
+    front of the leading digit (an index with `i % 4 = 3` is inside the text only if a digit
+    follows on its left: the text length is never ≡ 0 mod 4). -/
+theorem C13_group_positions (g : Byte) (l : List Byte) (i : Nat) :
+    (groupRight g l).reverse[i]? =
+      if i % 4 = 3 then (if i < l.length + (l.length - 1) / 3 then some g else none)
+      else l.reverse[i - i / 4]? :=
+  groupRight_reverse_getElem? g l i
+
+/-- Grouping only inserts: deleting the group characters from `groupRight g l` gives `l` back
+    (for a group character that does not occur in `l` itself). -/
+theorem C13_group_erase (g : Byte) (l : List Byte) (hg : g ∉ l) :
+    (groupRight g l).filter (fun x => x != g) = l :=
+  groupRight_filter g l hg
+
 /-- Buffer variants, all widths, signed and unsigned, plain and grouped, for every caller buffer
     that is large enough for text and terminator (`len + 1 ≤ buf.length`, which includes the exact fit):
     no store outside the buffer (the result is `ok`, never `oob`), the buffer holds the same text as
@@ -109,9 +140,12 @@ theorem C13_buffer (n : Nat) (hn : Width n) (grouped signed : Bool) (v : Int) (g
     exact ⟨Lib.str_unsigned Gen.lib grouped n f d (gen_api grouped) hn hfile hfb hfg hok g x hx,
       Lib.buf_unsigned Gen.lib grouped n f d (gen_api grouped) hn hfile hfb hfg hok g x hx buf hcap⟩
 
-/-- Round trip: parsing the returned text (`textOf`: the bytes as a `String`) as a decimal integer
-    (core `String.toInt?`) yields the
-    original value — every width, signed and unsigned, every value. -/
+/-- Round trip of the PLAIN string form: parsing the returned text (`textOf`: the bytes as a `String`)
+    as a decimal integer yields the original value — every width, signed and unsigned, every value.
+    The parser is core `String.toInt?`; it stands for `celma::format::stringTo<T>`, which is a
+    one-line forwarder to `std::stoi` / `std::stol` / `std::stoul` (string_to.hpp) and is not
+    modelled — the harness runs the real `stringTo<T>` on every text it checks.  Grouped forms:
+    `C13_roundtrip_grouped`; buffer forms: `C13_roundtrip_buffer`. -/
 theorem C13_roundtrip (n : Nat) (hn : Width n) (signed : Bool) (v : Int) (g : Byte)
     (hv : if signed then -(2 ^ (n - 1)) ≤ v ∧ v < 2 ^ (n - 1) else 0 ≤ v ∧ v < 2 ^ n) :
     ∃ t, Gen.lib.str false n signed g v = .ok t ∧ (textOf t).toInt? = some v := by
@@ -133,6 +167,77 @@ theorem C13_roundtrip (n : Nat) (hn : Width n) (signed : Bool) (v : Int) (g : By
       rw [Int.toString_eq_repr, Int.repr_eq_if, if_pos (by omega)]; simp
     rw [this]; exact hrt
 
+/-- Round trip of the GROUPED string form: the grouped text itself is not a decimal numeral, so the
+    group characters are deleted first (what a reader of such a text does); the remaining text
+    parses to the original value.  For every group character other than the minus sign and the ten
+    digits (for those the grouped text is ambiguous by construction — the harness skips them too). -/
+theorem C13_roundtrip_grouped (n : Nat) (hn : Width n) (signed : Bool) (v : Int) (g : Byte)
+    (hv : InRange n signed v) (hg : g ≠ 45 ∧ ¬ (48 ≤ g ∧ g ≤ 57)) :
+    ∃ t, Gen.lib.str true n signed g v = .ok t ∧
+      (textOf (t.filter (fun x => x != g))).toInt? = some v := by
+  refine ⟨_, (lib_spec Gen.lib gen_file gen_api n hn true signed v g hv).1, ?_⟩
+  rw [specText_filter g v hg, specText_plain]
+  unfold textOf bytesOf
+  rw [List.map_map]
+  have : (Char.ofNat ∘ Char.toNat) = id := by funext c; simp
+  rw [this, List.map_id, String.ofList_toList, Int.toString_eq_repr, Int.toInt?_repr]
+
+/-- Round trip of the BUFFER forms, plain and grouped: the first `ret` bytes of the caller's buffer
+    (`ret` = the returned length; the byte after them is the NUL, `C13_buffer`), with the group
+    characters deleted in the grouped case, parse to the original value. -/
+theorem C13_roundtrip_buffer (n : Nat) (hn : Width n) (grouped signed : Bool) (v : Int) (g : Byte)
+    (hv : InRange n signed v) (hg : grouped = true → g ≠ 45 ∧ ¬ (48 ≤ g ∧ g ≤ 57))
+    (buf : List Byte) (hcap : (specText grouped g v).length + 1 ≤ buf.length) :
+    ∃ m ret, Gen.lib.buf grouped n signed g v buf = .ok (m, ret) ∧
+      (textOf (if grouped then (m.take ret.toNat).filter (fun x => x != g) else m.take ret.toNat)).toInt?
+        = some v := by
+  refine ⟨_, _, (lib_spec Gen.lib gen_file gen_api n hn grouped signed v g hv).2 buf hcap, ?_⟩
+  have htake : (specText grouped g v ++ [0] ++ buf.drop ((specText grouped g v).length + 1)).take
+      ((specText grouped g v).length : Int).toNat = specText grouped g v := by
+    rw [Int.toNat_natCast, List.append_assoc, List.take_left']
+    rfl
+  rw [htake]
+  have hplain : (textOf (specText false g v)).toInt? = some v := by
+    rw [specText_plain]
+    unfold textOf bytesOf
+    rw [List.map_map]
+    have : (Char.ofNat ∘ Char.toNat) = id := by funext c; simp
+    rw [this, List.map_id, String.ofList_toList, Int.toString_eq_repr, Int.toInt?_repr]
+  cases grouped with
+  | false => simpa using hplain
+  | true =>
+    simp only [if_true]
+    rw [specText_filter g v (hg rfl)]
+    exact hplain
+
+/-- **The switch as written.**  `Gen.libLiteral` is the library in which `convert()` is not the
+    trace the translator computed but the *statements of the source switch as they stand*
+    (second, literal reading: `uint8_t num_digits = 0;`, every `case` with its `++num_digits;` /
+    `checkAddGroupChar( buffer, num_digits, group_char);` statements, `[[fallthrough]]`, `default`):
+    selecting the case, falling through and counting digits to place the group character are done
+    by the Lean interpreter (`switchOps`, `Op.step` for `inc` / `check thr reset`), and the kernel
+    checks the obligations `…_literal_rows_ok` for it.  For every width, family, value and group
+    character it returns the specification text and fills the buffer exactly like `Gen.lib`
+    (`C13_unsigned` … `C13_buffer`).  So the placement of the group characters does not rest on the
+    translator's evaluation of the counter.  (Where a tree's `convert()` cannot be read literally
+    — a rewritten but equivalent function — `libLiteral` falls back to the trace rows for that file
+    and this theorem says nothing new for it; `Generated/Int2Str.lean` and the run report say which
+    files were read literally: all eight on the unchanged tree, example below.) -/
+theorem C13_switch_as_written (n : Nat) (hn : Width n) (grouped signed : Bool) (v : Int) (g : Byte)
+    (hv : InRange n signed v) :
+    Gen.libLiteral.str grouped n signed g v = .ok (specText grouped g v) ∧
+    Gen.libLiteral.str grouped n signed g v = Gen.lib.str grouped n signed g v ∧
+    ∀ buf : List Byte, (specText grouped g v).length + 1 ≤ buf.length →
+      Gen.libLiteral.buf grouped n signed g v buf =
+        .ok (specText grouped g v ++ [0] ++ buf.drop ((specText grouped g v).length + 1),
+             ((specText grouped g v).length : Int)) ∧
+      Gen.libLiteral.buf grouped n signed g v buf = Gen.lib.buf grouped n signed g v buf := by
+  have h1 := lib_spec Gen.libLiteral gen_file_literal gen_api_literal n hn grouped signed v g hv
+  have h2 := lib_spec Gen.lib gen_file gen_api n hn grouped signed v g hv
+  refine ⟨h1.1, by rw [h1.1, h2.1], ?_⟩
+  intro buf hcap
+  exact ⟨h1.2 buf hcap, by rw [h1.2 buf hcap, h2.2 buf hcap]⟩
+
 /-! ### the hypotheses are satisfiable, the statements are about real values -/
 
 example : Width 64 := .inr (.inr (.inr rfl))
@@ -152,5 +257,17 @@ example : okWith (Gen.lib.str true 16 false 46 1000) [49, 46, 48, 48, 48] = true
 example : okBuf (Gen.lib.buf false 8 true 0 (-128) [7, 7, 7, 7, 7, 7, 7]) [45, 49, 50, 56, 0, 7, 7] 4 = true := by decide
 -- "1234567" grouped: "1'234'567"
 example : groupRight 39 [49, 50, 51, 52, 53, 54, 55] = [49, 39, 50, 51, 52, 39, 53, 54, 55] := by decide
+-- positions from the right of "1'234'567": index 3 and 7 hold the group character, index 4 the digit '4'
+example : (groupRight 39 [49, 50, 51, 52, 53, 54, 55]).reverse[3]? = some 39 := by decide
+example : (groupRight 39 [49, 50, 51, 52, 53, 54, 55]).reverse[4]? = some 52 := by decide
+-- the hypotheses of the round-trip theorems: int16 minimum is in range, ' is an admissible group character
+example : InRange 16 true (-32768) := by unfold InRange; decide
+example : (39 : Byte) ≠ 45 ∧ ¬ (48 ≤ (39 : Byte) ∧ (39 : Byte) ≤ 57) := by decide
+-- the switch as written, executed by the Lean interpreter: int64 minimum grouped, uint16 1000 into a buffer
+example : okWith (Gen.libLiteral.str true 64 true 39 (-9223372036854775808))
+    [45, 57, 39, 50, 50, 51, 39, 51, 55, 50, 39, 48, 51, 54, 39, 56, 53, 52, 39, 55, 55, 53, 39, 56, 48, 56] = true := by
+  decide
+example : okBuf (Gen.libLiteral.buf true 16 false 46 1000 [7, 7, 7, 7, 7, 7, 7]) [49, 46, 48, 48, 48, 0, 7] 5 = true := by
+  decide
 
 end CelmaVerif.Props.C13
